@@ -3,12 +3,15 @@
 usage: import_seeded.py C06 a   (reads /tmp/wt/C06.out/, validation log must say suite=ok with=fail without=pass)"""
 import json, os, shutil, sys, re
 pid, x = sys.argv[1], sys.argv[2]
-out = f"/tmp/wt/{pid}.out"
+# optional third argument: round suffix (".r2") and the letter to store it under (c/d/…)
+suffix = sys.argv[3] if len(sys.argv) > 3 else ""
+as_x = sys.argv[4] if len(sys.argv) > 4 else x
+out = f"/tmp/wt/{pid}{suffix}.out"
 log = open(f"{out}/validate_{x}.log").read()
 m = re.search(r"RESULT suite=(\S+) demo_with_patch_exit=(\d+) demo_without_patch_exit=(\d+)", log)
 if not m or m.group(1) != "ok" or m.group(2) == "0" or m.group(3) != "0":
     print("NOT VALID:", pid, x, m.group(0) if m else "no result"); sys.exit(1)
-dst = f"/verif/seeded/{pid}{x}"
+dst = f"/verif/seeded/{pid}{as_x}"
 shutil.rmtree(dst, ignore_errors=True)
 os.makedirs(dst)
 shutil.copy(f"{out}/patch_{x}.diff", f"{dst}/patch.diff")
@@ -16,7 +19,7 @@ shutil.copytree(f"{out}/demo_{x}", f"{dst}/demo")
 meta = json.load(open(f"{out}/meta_{x}.json"))
 base = re.search(r"== base (\S+)", log).group(1)
 meta2 = {
-  "id": f"{pid}{x}", "property": pid, "summary": meta.get("summary"), "files": meta.get("files"),
+  "id": f"{pid}{as_x}", "property": pid, "round": (2 if suffix else 1), "summary": meta.get("summary"), "files": meta.get("files"),
   "needs_to_manifest": meta.get("needs"), "demo_path": meta.get("demo_path"), "demo_cmd": meta.get("demo_cmd"),
   "expected_with_patch": meta.get("expected_with_patch"),
   "author": "independent sub-agent given only the property text and a scratch worktree",
